@@ -175,12 +175,13 @@ def scenarios(bindir):
     return [l.strip() for l in p.stdout.splitlines() if l.strip()]
 
 
-def run_one(chk, bindir, scen, k=None, errno=None, tag="dry", value=None):
+def run_one(chk, bindir, scen, k=None, errno=None, tag="dry", value=None, call=None):
     root = tempfile.mkdtemp(prefix="fdops-", dir=chk.work)
     log = os.path.join(chk.work, "log_%s_%s.ndjson" % (scen, tag))
     rules = []
     if k is not None and value is not None:
-        rules.append("win=%s,task=1,src=exe,k=%d,ret=%d,mode=s" % (scen, k, value))
+        # (a write is executed and only its result replaced: the peer still gets its data)
+        rules.append("win=%s,task=1,src=exe,k=%d,ret=%d,mode=%s" % (scen, k, value, "p" if "write" in (call or "") or call == "sendmsg" else "s"))
     elif k is not None:
         rules.append("win=%s,task=1,src=exe,k=%d,ret=-%d" % (scen, k, errno))
     try:
@@ -322,7 +323,7 @@ def run(tier):
         if it["k"] is None:
             return dry[it["scenario"]][0]
         if "value" in it:
-            return run_one(chk, bindir, it["scenario"], it["k"], 0, "k%d_v%d" % (it["k"], it["value"]), value=it["value"])
+            return run_one(chk, bindir, it["scenario"], it["k"], 0, "k%d_v%d" % (it["k"], it["value"]), value=it["value"], call=it["call"])
         return run_one(chk, bindir, it["scenario"], it["k"], it["errno"], "k%d_e%d" % (it["k"], it["errno"]))
     with ThreadPoolExecutor(max_workers=8) as ex:
         runs = list(ex.map(exec_item, plan))
